@@ -6,7 +6,7 @@ META = dict(
     technique="Coq proof of the reduction of every crash state to a flush point (corollary of C01) + exhaustive-per-history reopening of crash snapshots of the real database",
     level_text="PARTIAL. Machine-checked: C02_reduction_partial — at every crash cut of every storage-call list the recovered file equals the file at the completion of some flush (or the initial file), and the "
                "recovery log is empty afterwards. Not proved: that the bytes at a flush point load into consistent collection structures; this is checked for every sampled crash snapshot of generated histories: "
-               "reopen with DbFile, Db, DbAny(file) and DbAny(mapped) in turn, read every element, property, alias and index and the adjacency lists, and evaluate the state invariants. The *_guarded theorems state the same for the recovery with the position check of apply_wal_record (model recover_g, fixes/C07-wal-position.diff): on these logs the check never fires (C01_guarded_recovery_agrees), so the statements hold for a tree with or without it.",
+               "reopen with DbFile, Db, DbAny(file) and DbAny(mapped) in turn, read every element, property, alias and index and the adjacency lists, and evaluate the state invariants. The *_guarded theorems state the same for the recovery with the position check of apply_wal_record (model recover_g, fixes/C07-wal-position.diff): on these logs the check never fires (C01_guarded_recovery_agrees), so the statements hold for a tree with or without it. Round 2/4 (collection and database level, models and relation as in C05): C02_{vec,map,graph}_loads_partial — in every state of the record map in which a collection's representation invariant holds its loader succeeds and reads back the content; C02_db_loads_partial — in EVERY state of the record store in which the whole database is represented (stored_db: root record -> graph, two alias tables, index vector with one multi-map per index, values vector with one DbVec<DbKeyValue> per element) the composition of ALL loaders (DbImpl::new followed by reading every component to the end: the extracted load_db, and the loader program on the model of storage.rs) succeeds and returns the represented database up to the order a hash table does not keep; non-vacuity C02_db_sample. Still not proved: that the record map INSIDE an operation cut by a crash is never observed (C03 + C01 composed) and that stored_db holds at every flush point of a database history (the simulation of db.rs's mutations, C05_db_operations_preserve_stored_db, named in Props/C05.v); both are covered by the crash snapshots.",
     design_ref="DESIGN.md §5 C02",
     level_note="Trusted: Coq kernel, Rust harness incl. snapshot routine, std::fs. Readability of flush-point states rests on enumeration of the crash snapshots of generated histories.",
 )
